@@ -120,6 +120,24 @@ pub fn observe_typed(bytes: &[u8]) -> Result<(bool, usize, usize, usize), String
 
 /// The typed iterator must deliver as many items, report as many errors and stop as the value iterator does.
 fn typed_agrees(bytes: &[u8], obs: &Obs) -> Result<(), String> {
+    // the two iterators over ONE reader: the value iterator is pulled until it reports its error, then the
+    // same reader is handed over with into_deser_iter - what lies behind the damage must stay undelivered
+    if obs.open_ok && obs.errors > 0 {
+        let handed = guarded(|| {
+            let Ok(mut reader) = Reader::new(bytes) else { return 0usize };
+            for item in reader.by_ref() {
+                if item.is_err() {
+                    break;
+                }
+            }
+            reader.into_deser_iter::<crate::c06::Dyn>().take(1000).filter(|i| i.is_ok()).count()
+        });
+        match handed {
+            Err(p) => return Err(format!("typed iterator taken over from the value iterator panicked: {p}")),
+            Ok(0) => {}
+            Ok(n) => return Err(format!("after the value iterator reported the damage, the same reader converted with into_deser_iter delivered {n} more item(s)")),
+        }
+    }
     match observe_typed(bytes) {
         Err(p) => Err(format!("typed iterator (into_deser_iter) panicked: {p}")),
         Ok(t) if t == (obs.open_ok, obs.values.len(), obs.errors, obs.after_error) => Ok(()),
